@@ -161,13 +161,20 @@ def check_symjump(acc):
     from mc import asm
 
     ret = lambda v: [("push", v), "PUSH0", "MSTORE", ("push", 32), "PUSH0", "RETURN"]
-    for extra in ([], [("label", "c")] + ret(3)):
-        code = asm.assemble(["PUSH0", "CALLDATALOAD", "JUMP", ("label", "a")] + ret(1) + [("label", "b")] + ret(2) + extra)
+    # third program: the destination is a truth value (ISZERO(x), 0 or 1): pc 1 is a JUMPDEST, pc 0 is not.  First pass marks memory,
+    # then jumps to ISZERO(x); the second pass through pc 1 sees MSIZE != 0 and returns 7
+    boolprog = ["PUSH0", ("label", "one"), "MSIZE", ("ref", "r"), "JUMPI", ("push", 1), "PUSH0", "MSTORE", "PUSH0", "CALLDATALOAD", "ISZERO", "JUMP", ("label", "r")] + ret(7)
+    for extra in ([], [("label", "c")] + ret(3), "bool"):
+        if extra == "bool":
+            code = asm.assemble(boolprog)
+            assert code[1] == 0x5B
+        else:
+            code = asm.assemble(["PUSH0", "CALLDATALOAD", "JUMP", ("label", "a")] + ret(1) + [("label", "b")] + ret(2) + extra)
         spec = {"accounts": {"0xaaaa": {"code": code.hex(), "balance": None}}, "target": 0xAAAA, "caller": 0xB1, "origin": 0xB1, "value": 0,
                 "calldata": [["sym", "x", 32]], "options": {"symbolic_jump": True}}
         dests = [i for i, b in enumerate(code) if b == 0x5B]
         grid = [{"x": v} for v in dests + [0, 1, dests[0] + 1, dests[-1] + 1, len(code), 2**255, 2**256 - 1]]
-        name = f"symbolic-jump:{len(dests)}-destinations"
+        name = f"symbolic-jump:{len(dests)}-destinations" + (":truth-value" if extra == "bool" else "")
         acc.count("programs")
         for force_all in (False, True):
             hdriver.check_seam.start()
